@@ -94,11 +94,13 @@ def create_missing_mapspecs(
     functions: list[PipeFunc],
     non_root_inputs: dict[str, set[str]],
 ) -> set[PipeFunc]:
-    # Mapping from output_name to PipeFunc for functions without a MapSpec
+    # Mapping from output_name to PipeFunc for functions without a MapSpec (of their own:
+    # a MapSpec that was generated here before is generated again, because a consumer that
+    # was added in the meantime may name an axis that was unnamed until now)
     outputs_without_mapspec: dict[str, PipeFunc] = {
         name: func
         for func in functions
-        if func.mapspec is None
+        if func.mapspec is None or (func.mapspec._is_generated and not func.mapspec.inputs)
         for name in at_least_tuple(func.output_name)
     }
 
@@ -109,6 +111,8 @@ def create_missing_mapspecs(
         if func in func_with_new_mapspecs:
             continue  # already added a MapSpec because of multiple outputs
         axes = tuple(non_root_inputs[p])
+        if func.mapspec is not None and func.mapspec.outputs[0].axes == axes:
+            continue  # generated before and still up to date
         outputs = tuple(ArraySpec(x, axes) for x in at_least_tuple(func.output_name))
         func.mapspec = MapSpec(inputs=(), outputs=outputs, _is_generated=True)
         func_with_new_mapspecs.add(func)
